@@ -8,7 +8,7 @@ DST=/verif/seeded/$ID${SUFFIX:-}
 mkdir -p "$DST"
 [ -s "$DST/patch.diff" ] || ( cd "$SRC" && git diff -- src > "$DST/patch.diff" )
 cp "$SRC"/demo_*.py "$DST/" 2>/dev/null
-cp "$SRC/NOTES.md" "$DST/NOTES.md" 2>/dev/null
+cp "$SRC/NOTES.md" "$DST/NOTES.md" 2>/dev/null; cp "$SRC"/aside*.py "$SRC"/aside/*.py "$SRC"/scratch_aside*.py "$DST/" 2>/dev/null
 WT="$(mktemp -d /tmp/vseed.XXXXXX)"
 git -C /repo worktree add -q --detach "$WT" HEAD >/dev/null 2>&1
 trap 'git -C /repo worktree remove --force "$WT" >/dev/null 2>&1; rm -rf "$WT"' EXIT
